@@ -224,7 +224,7 @@ func recoverStep(w *World, r *Report, rule, fnName string) *stepCtx {
 			return
 		}
 		if s.try {
-			if c.Call.StaticCallee() != nil && c.Call.StaticCallee().Name() == "executeOperatorProxy" {
+			if c.Call.StaticCallee() != nil && nm(c.Call.StaticCallee()) == "executeOperatorProxy" {
 				s.calls = append(s.calls, c)
 			}
 		} else if isOperatorCall(w, &c.Call) {
@@ -350,7 +350,7 @@ func ruleStepRes(w *World, r *Report, fnName string) *stepCtx {
 			good := false
 			if c != nil {
 				if s.try {
-					good = c.Call.StaticCallee() != nil && c.Call.StaticCallee().Name() == "fetchVariableValueProxy" && len(c.Call.Args) == 2 && c.Call.Args[0] == s.ctx && s.isCurt(c.Call.Args[1])
+					good = c.Call.StaticCallee() != nil && nm(c.Call.StaticCallee()) == "fetchVariableValueProxy" && len(c.Call.Args) == 2 && c.Call.Args[0] == s.ctx && s.isCurt(c.Call.Args[1])
 				} else if isGetInvoke(&c.Call) {
 					n := getKeysNode(&c.Call)
 					good = n != nil && s.isCurt(n)
@@ -575,7 +575,7 @@ func ruleStepArgs(w *World, r *Report, s *stepCtx) {
 			var cp *ssa.Call
 			for _, ref := range referrers(x) {
 				if c, ok := ref.(*ssa.Call); ok {
-					if b, okb := c.Call.Value.(*ssa.Builtin); okb && b.Name() == "copy" && c.Call.Args[0] == ssa.Value(x) && (c.Block() == a.from || c.Block().Dominates(a.from)) && x.Block().Dominates(c.Block()) {
+					if b, okb := c.Call.Value.(*ssa.Builtin); okb && nm(b) == "copy" && c.Call.Args[0] == ssa.Value(x) && (c.Block() == a.from || c.Block().Dominates(a.from)) && x.Block().Dominates(c.Block()) {
 						cp = c
 					}
 				}
@@ -635,7 +635,7 @@ func ruleStepArgs(w *World, r *Report, s *stepCtx) {
 				continue
 			}
 			good := false
-			if c := resultOf(st.Val); c != nil && c.Call.StaticCallee() != nil && c.Call.StaticCallee().Name() == "getNodeValueProxy" && len(c.Call.Args) == 2 && c.Call.Args[0] == s.ctx {
+			if c := resultOf(st.Val); c != nil && c.Call.StaticCallee() != nil && nm(c.Call.StaticCallee()) == "getNodeValueProxy" && len(c.Call.Args) == 2 && c.Call.Args[0] == s.ctx {
 				if off, ok := s.l.nodeAt(c.Call.Args[1]); ok && off == slot+1 {
 					good = true
 				}
